@@ -19,6 +19,10 @@ import (
 	"golang.org/x/tools/go/ssa"
 )
 
+type kSuite struct {
+	seed  SliceV
+	draws int // scalars picked so far from this suite's (continuing) random stream
+}
 type kPoint struct{ enc *Term } // Str: encoding; nil = null point
 type kPoly struct {
 	commits []*Term // encodings
@@ -30,7 +34,7 @@ func registerKyber(P *Program) {
 	r := P.reg
 	const kb = "github.com/corestario/kyber"
 	r(kb+"/pairing/bls12381.NewBLS12381Suite", func(in *Interp, caller *frame, fn *ssa.Function, args []Value) Value {
-		return Iface{T: types.Typ[types.Int], V: &Opaque{Kind: "kyber.suite", Data: args[0]}}
+		return Iface{T: types.Typ[types.Int], V: &Opaque{Kind: "kyber.suite", Data: &kSuite{seed: args[0].(SliceV)}}}
 	})
 	newPoint := func(in *Interp) Value {
 		return Iface{T: types.Typ[types.Int], V: &Opaque{Kind: "kyber.point", Data: &kPoint{}}}
@@ -46,6 +50,10 @@ func registerKyber(P *Program) {
 	opaqueMethods["kyber.point.UnmarshalBinary"] = func(in *Interp, op *Opaque, args []Value) Value {
 		b := args[0].(SliceV)
 		s := in.sliceStr(b)
+		if s.op == OApp && (s.s == "kyber.pub" || s.s == "dkg.dealer.commit") {
+			op.Data.(*kPoint).enc = s // the encoding of a point always decodes (dec(enc(p)) = p)
+			return Iface{}
+		}
 		if in.branch(nil, nil, in.ts.App("kyber.pt.decodes", BoolSort, s)) {
 			op.Data.(*kPoint).enc = s
 			return Iface{}
